@@ -5,6 +5,7 @@ import (
 	"encoding/json"
 	"fmt"
 	"math"
+	"sort"
 	"strconv"
 	"strings"
 
@@ -131,7 +132,14 @@ func unmarshalValue(span errors.Span, self interface{}) (*Value, *Interrupt) {
 		return NewValueBool(self), nil
 	case map[string]interface{}:
 		fields := make(map[string]*Value)
-		for key, field := range self {
+		// in the order of the keys: which of several bad members an error names must not depend on the map
+		keys := make([]string, 0, len(self))
+		for key := range self {
+			keys = append(keys, key)
+		}
+		sort.Strings(keys)
+		for _, key := range keys {
+			field := self[key]
 			value, err := unmarshalValue(span, field)
 			if err != nil {
 				return nil, err
